@@ -359,7 +359,7 @@ func main() {
 	for _, c := range corpus() {
 		x.runCase(0, c)
 	}
-	n := 1400 * r.Scale
+	n := 3000 * r.Scale
 	for i := 0; i < n; i++ {
 		rng, sub := r.Rng.Fork()
 		x.runCase(sub, genCase(rng))
